@@ -309,6 +309,12 @@ class MinMax:
     def __init__(self, view, kind, axis):
         self.view, self.kind, self.axis = view, kind, axis
 
+    def __format__(self, spec):
+        return '@%s%d@' % (self.kind.upper(), id(self) % 100000)
+
+    def __str__(self):
+        return self.__format__('')
+
     def __iter__(self):
         n = self.view.shape[-1]
         n = n if isinstance(n, int) else core.cur().realise_int(I(n), limit=16)
@@ -505,16 +511,50 @@ class KWriteHandle(KHandle):
         return S(self.kf.wpos)
 
 
+class KText:
+    def __init__(self):
+        self.s = ''
+
+    def write(self, t):
+        self.s += t
+        return len(t)
+
+    def __enter__(self):
+        return self
+
+    def __exit__(self, *a):
+        return False
+
+    def close(self):
+        pass
+
+
 class KFS:
     """Just enough of a file system for a leaf kernel: named KFiles opened for reading or writing."""
 
     def __init__(self):
         self.files = {}
+        self.texts = {}
+        self.cwd = '/'
+        self.dirs = []
+
+    def mkdir(self, p):
+        self.dirs.append(p)
+
+    def mkdirs(self, p, exist_ok=True, audit=True):
+        self.dirs.append(p)
+
+    def abspath(self, p):
+        return p
 
     def add(self, path, kfile):
         self.files[path] = kfile
 
     def open(self, path, mode='r', *a, **k):
+        if 'w' in mode and 'b' not in mode:
+            t = KText()
+            self.texts[path] = t
+            return t
         if 'w' in mode:
             kf = KFile(path, [])
             self.files[path] = kf
